@@ -143,8 +143,8 @@ def run(ctx, chk):
             chk.ob("C13.delegation", f"step: self.{attr} := result {i} of that call", ok,
                    scn.show(e.value) if e else "no store", s.fi.module.path)
         other = [f for f in stores if f not in ("current_state", "last_obs", "steps")]
-        chk.ob("C13.delegation", "step: no other environment attribute is written", not other,
-               str(other), s.fi.module.path)
+        if other:
+            chk.note(f"step also writes {other} (outside the property's scope)")
         # observation returned by step is a presentation of result 1
         if len(s.returns) == 1 and s.returns[0][1][0] == "tuple":
             o = s.returns[0][1][1][0]
